@@ -205,6 +205,14 @@ func (v VT) Go() any {
 		}
 		return out
 	case "arr":
+		if v.Elem == "string" {
+			t := reflect.ArrayOf(len(v.Items), reflect.TypeOf(""))
+			a := reflect.New(t).Elem()
+			for i, it := range v.Items {
+				a.Index(i).SetString(it.S)
+			}
+			return a.Interface()
+		}
 		t := reflect.ArrayOf(len(v.Items), reflect.TypeOf(int(0)))
 		a := reflect.New(t).Elem()
 		for i, it := range v.Items {
